@@ -22,7 +22,7 @@ PROP = {'drive': ['Faults'],
                        'C18_parser_error'],
  # budget = number of corpus fonts / table sets; every fault point k of each is enumerated
  'areas': [('faults', 6, 40)],
- 'thorough_seeds': 2,
+ 'thorough_seeds': 1,
  'rule': 'one case line = one block of up to 256 consecutive fault points k of one font/table set, one destination or '
          'source kind (distribution groups count single fault points); non-trivial = at least two tables',
  'partial': ['the table decoders behind header.Read are a parameter (`decode`) of the model of sfnt.Read: the theorems '
